@@ -27,6 +27,8 @@ CHECKS = {
     "C09": ("p_engine", "c09"),
     "C10": ("p_engine", "c10"),
     "C17": ("p_engine", "c17"),
+    "C11": ("p_mp", "c11"),
+    "C18": ("p_mp", "c18"),
 }
 
 
